@@ -376,6 +376,10 @@ def model_task(task, ybin, root, prop):
             protos0[0].steps.insert(at, ("steeru64", M.Prim("uint64"), True))
             if prop == "C01":
                 add_unset_steps(pkg, protos0[0], pr_)
+                # instants and times of day on both sides of every boundary the conversions know: before / after 1970, whole
+                # seconds, whole microseconds (what the standard library's types can hold), odd nanoseconds
+                protos0[0].steps.append(("steerinstants", M.Prim("datetime"), True))
+                protos0[0].steps.append(("steerclock", M.Prim("time"), True))
             # arrays of the widest integers, filled (below) with single high bits: the values at which a varint gets one byte longer
             protos0[0].steps.append(("steerarru64", M.Arr(M.Prim(pr_.choice(["uint64", "uint64", "size"])), pr_.choice([None, 1, 2])), pr_.chance(0.3)))
             protos0[0].steps.append(("steerarri64", M.Arr(M.Prim("int64"), pr_.choice([None, 1, ((None, 4),), ((None, 2), (None, 3))])), pr_.chance(0.3)))
@@ -429,6 +433,17 @@ def model_task(task, ybin, root, prop):
                             ns_ = secs * 10 ** 9 + frac
                             out_.append(ns_ if sn_ == "steertimes" else (tr.next() % (4 * 10 ** 9)) * 10 ** 9 + ns_ - 10 ** 18)
                         vals[k_] = out_
+                    if sn_ == "steerinstants":
+                        tr_ = r.fork("instants")
+                        out_ = []
+                        for _ in range(tr_.randint(8, 24)):
+                            secs_ = tr_.randint(-2 * 10 ** 9, 2 * 10 ** 9)
+                            frac_ = tr_.choice([0, 0, tr_.randint(0, 999999) * 1000, tr_.randint(0, 999999) * 1000, 500000000, 1000, 999999000, tr_.randint(0, 999999999)])
+                            out_.append(secs_ * 10 ** 9 + frac_)
+                        vals[k_] = out_
+                    if sn_ == "steerclock":
+                        tr_ = r.fork("clock")
+                        vals[k_] = [tr_.randint(0, 86399) * 10 ** 9 + tr_.choice([0, tr_.randint(0, 999999) * 1000, 999999000, tr_.randint(0, 999999999)]) for _ in range(tr_.randint(6, 16))]
                     if sn_ in ("steerflagitems", "steerflagrecs") and r.fork("shrinkflags", sn_).chance(0.7):
                         seq_ = [59, 1, 0, 8, 49, 3, 2][:r.fork("shrinkflags2", sn_).randint(3, 7)]
                         vals[k_] = seq_ if sn_ == "steerflagitems" else [{"mode": v_, "level": j_} for j_, v_ in enumerate(seq_)]
